@@ -301,22 +301,7 @@ def emit_nontrivial(fn, p):
     return len(p.get("bdt", ())) >= 2 or len(p.get("fdt", ())) >= 2 or len(p.get("data", b"")) >= 1
 
 
-def _tracing(on):
-    import logging
-    from bacpypes import bvll as B_, bvllservice as BS_, comm as C_, pdu as P_
-    for m_ in (B_, BS_, C_, P_):
-        m_._debug = 1 if on else 0
-    logging.getLogger("bacpypes").setLevel(logging.DEBUG if on else logging.WARNING)
-
-
 def judge(case):
-    if case.get("dbg"):
-        _tracing(True)
-        try:
-            v = judge(dict((k_, v_) for k_, v_ in case.items() if k_ != "dbg"))
-        finally:
-            _tracing(False)
-        return Verdict(v.fails, v.nontrivial, tuple(v.labels) + ("tracing-on",))
     k = case["k"]
     if k == "bbmdfdt":
         from bacpypes.bvllservice import BIPBBMD
